@@ -219,8 +219,8 @@ func replay(cases []tcase, singleEvery int) []event {
 			}
 			w.ev["inputs"] = c.Inputs
 		}
-		if len(c.Ast) > 0 {
-			w.ev["ast"] = c.Ast
+		if len(c.Ast) > 0 && c.Core == nil {
+			w.ev["ast"] = c.Ast // TLC-emitted cases carry the prediction already; the tree is needed only to evaluate generated programs
 		}
 		if len(c.Lits) > 0 {
 			w.ev["lits"] = c.Lits
